@@ -247,6 +247,12 @@ def directed(tier):
         for cid, be, steps in gen(tier):
             if cid in want:
                 cases.append(("c20-" + cid, be, [feed] + steps))
+    # replays kept from earlier runs (corpus/C20/*.json: the "script" of a replay file, run again every time)
+    import glob
+    import json as _json
+    for f in sorted(glob.glob(os.path.join(C.VERIF, "corpus", "C20", "*.json"))):
+        rp = _json.load(open(f))
+        cases.append(("c20-corpus-" + os.path.basename(f)[:-5], rp.get("backend", "mem"), rp["script"]))
     # order of delivery for back-to-back commands
     for r in range(3 if tier != "thorough" else 12):
         cases.append(("c20-burst-%d" % r, "mem", [feed, x("BURST", lit("burst") + ":40"), op(0, "LLEN", "burst")]))
